@@ -67,6 +67,15 @@ fn build_prefix(pb: &mut PathBuilder, prefix: u64, arc_start: (f32, f32)) {
             pb.move_to(0., 0.);
             pb.arc(1., 2., 3., 0.5, 2.);
         }
+        8 => {
+            // a zero-radius arc first
+            pb.move_to(1., 1.);
+            pb.arc(7., -3., 0., 1., 2.);
+        }
+        9 => {
+            pb.rect(2., 2., 0., 0.);
+            pb.arc(4., 4., 2., 0., -9.);
+        }
         _ => {
             pb.move_to(0., 0.);
             pb.quad_to(5., 5., arc_start.0, arc_start.1);
@@ -275,7 +284,7 @@ pub fn run(ctx: &Ctx) -> Outcome {
         };
         let (cx, cy) = (f(&mut rng), f(&mut rng));
         st.add("arcs_checked", 1);
-        let prefix = rng.below(8);
+        let prefix = rng.below(10);
         if let Some(v) = check_arc(cx, cy, r, start, sweep, prefix, st) {
             co.viol("C20", v);
         }
